@@ -50,6 +50,7 @@ Inductive kev :=
 
 Inductive case :=
 | CRunner (steps : list step) (o_reports : list (N * list (N * N))) (o_streams : list (list ev)) (complete : bool)
+          (o_acked : list (N * N))   (* splits of the assignment rounds HandleAssignSplits acknowledged *)
 | CTracker (ops : list top)
 | CKinesis (n : N) (evs : list kev)
 | CEmbedded (splits runners : N) (o : list (list N))
@@ -115,7 +116,7 @@ Definition check_cut (universe : list ev) (streams : list (list ev)) (rep : N * 
                                        | None => true end
                           | _ => true end) universe) 10.
 
-Definition check_runner (steps : list step) (o_reports : list (N * list (N * N))) (o_streams : list (list ev)) (complete : bool) : list N :=
+Definition check_runner (steps : list step) (o_reports : list (N * list (N * N))) (o_streams : list (list ev)) (complete : bool) (o_acked : list (N * N)) : list N :=
   let m := run steps in
   let universe := filter is_rec (out m) in
   let route := observed_route o_streams in
@@ -132,6 +133,9 @@ Definition check_runner (steps : list step) (o_reports : list (N * list (N * N))
         && forallb (fun rep => same_set N.eqb (map fst (snd rep)) (map fst (assigned_before (fst rep) steps))) o_reports) 13 ++
   flag (forallb (fun o => list_eqb N.eqb (bar_ids o) (ckpt_ids steps)) o_streams) 12 ++
   flat_map (check_cut universe o_streams) o_reports ++
+  (* every split of an acknowledged assignment round reaches the reader exactly once, and nothing else does *)
+  flag (forallb (fun x => count (pair_eqb x) (all_assigned steps) =? count (pair_eqb x) o_acked)
+                (o_acked ++ all_assigned steps)) 16 ++
   (* resumption: nothing below the assigned cursor is emitted, the record at the cursor is the first one *)
   flag (forallb (fun sc => let '(s, c) := sc in
                   forallb (fun e => match e with Rec s' i => negb (s' =? s) || (c <=? i) | _ => true end) (concat o_streams)
@@ -270,7 +274,7 @@ Definition exactly_one_group (splits : N) (o : list (list N)) : bool :=
 
 Definition check_case (c : case) : list N :=
   match c with
-  | CRunner steps o_reports o_streams complete => check_runner steps o_reports o_streams complete
+  | CRunner steps o_reports o_streams complete o_acked => check_runner steps o_reports o_streams complete o_acked
   | CTracker ops => check_tracker ops new_tracker (mkTS [] [])
   | CKinesis n evs => check_kinesis n evs ([], mkK new_tracker []) (mkKS [] [] [] [] [] ([], []))
   | CEmbedded splits runners o =>
